@@ -163,7 +163,7 @@ class Interp:
         table = {
             "numpy": self.np, "dask.array": self.da, "dask": DaskModel(self),
             "copy": CopyModel(self), "functools": FunctoolsModel(self), "operator": OperatorModel(self),
-            "logging": Opaque("logging"), "scipy.spatial.distance": N.Scipy.spatial.distance,
+            "logging": Opaque("logging"), "scipy.spatial.distance": N.Scipy.spatial.distance, "itertools": ItertoolsModel(),
             "scipy": N.Scipy, "dask.bag": Opaque("dask.bag"), "dask.delayed": Opaque("dask.delayed"),
         }
         if isinstance(node, ast.Import):
@@ -681,6 +681,8 @@ class Interp:
             if m is not None:
                 fd, owner = m
                 fv = FuncVal(fd, owner.module, owner)
+                if name in owner.staticmethods:
+                    return fv                      # a static method reached through an instance: no binding
                 if name in owner.classmethods:
                     return BoundMethod(v.cls, fv)
                 return BoundMethod(v, fv)
@@ -694,6 +696,8 @@ class Interp:
             if m is not None:
                 fd, owner = m
                 fv = FuncVal(fd, owner.module, owner)
+                if name in owner.staticmethods:
+                    return fv
                 if name in owner.classmethods:
                     return BoundMethod(v, fv)
                 return fv
@@ -753,7 +757,9 @@ class Interp:
         if isinstance(v, Delayed):
             if name == "persist":
                 return lambda: v
-            if name in ("compute", "visualize", "dask", "key") or name.startswith("__"):
+            if name == "compute":
+                return lambda **kw: self.dask_compute(v)
+            if name in ("visualize", "dask", "key") or name.startswith("__"):
                 raise Unsupported("Delayed attribute %s" % name)
             # attribute access on a Delayed is lazy: a new Delayed whose value is the attribute of the computed object
             return Delayed(lambda o, name=name: self.getattr(o, name), (v,), {})
@@ -1732,6 +1738,18 @@ class LinalgModel:
         lam = T.close_raw("lam", vi, None, T.close_raw("lam", vj, None, body))
         tag = "chol_lower" if lower else "chol_upper"
         return Arr(m.shape, lambda i, j: T.app(tag, n, lam, i, j), "real", m.kind)
+
+
+class CountIter:
+    """itertools.count(start, step): start, start + step, ..."""
+
+    def __init__(self, start=0, step=1):
+        self.start, self.step = start, step
+
+
+class ItertoolsModel:
+    def count(self, start=0, step=1):
+        return CountIter(start, step)
 
 
 class StarSList:
